@@ -1,0 +1,22 @@
+//go:build verif
+
+// Contracts for package searcher: term enumeration of numeric ranges (read by /verif/gocv;
+// comment-only effect with the verif tag off).
+
+package searcher
+
+// ---------------------------------------------------------------------------
+// C07: stepping from one prefix-coded term to the next
+// ---------------------------------------------------------------------------
+
+// incrementBytes(in): a fresh string of the same length: in plus one, read as a big-endian number
+// (it agrees with in before the last byte p that is not 0xff, has in[p]+1 at p and zeros after p);
+// a string of 0xff bytes only wraps around to all zeros.
+//@ func incrementBytes
+//@   props C07
+//@   mode bv
+//@   ensures fresh(result) && len(result) == len(in)
+//@   ensures implies(forall(k, 0, len(in), in[k] == 255), forall(k, 0, len(in), result[k] == 0))
+//@   ensures implies(exists(k, 0, len(in), in[k] != 255), exists(p, 0, len(in), in[p] != 255 && result[p] == in[p] + 1 && forall(k, 0, p, result[k] == in[k]) && forall(k, p+1, len(in), in[k] == 255 && result[k] == 0), i))
+//@   loop 0: invariant -1 <= i && i < len(rv) && len(rv) == len(in) && fresh(rv) && forall(k, 0, i+1, rv[k] == in[k]) && forall(k, i+1, len(in), in[k] == 255 && rv[k] == 0)
+//@   loop 0: decreases i + 1
